@@ -193,6 +193,10 @@ class NDArray:
         self.base = base          # (parent NDArray, child_idx_of_parent_idx) for writable views
         self.writeable = True
         self.fill_value = None
+        # NP-MEMORY-LAYOUT: 'C' for arrays numpy creates (full, zeros, arange, results of arithmetic), 'F' for their transposes,
+        # None = unknown (arrays that are *inputs*: a dataset may hold Fortran-ordered or otherwise strided data).  The layout only
+        # matters for ndarray.ravel(): a view for C-contiguous arrays, a copy otherwise (a store through it is then lost).
+        self.order = 'C'
 
     def frozen(self):
         """Value snapshot: derived arrays read this, so later stores into the source are not seen through them."""
@@ -316,6 +320,11 @@ class NDArray:
     def _getitem_norm(self, idx, check=True):
         used('NP-INDEX')
         idx = list(idx)
+        if any(i is True or i is False for i in idx):
+            # NP-INDEX-SCALAR-BOOL: a[True] adds an axis of length one in front (a[False] one of length zero)
+            if any(i is False for i in idx):
+                raise Unsupported('array index False (empty leading axis)')
+            idx = [None if i is True else i for i in idx]
         # Ellipsis / None expansion
         if any(i is Ellipsis for i in idx):
             k = idx.index(Ellipsis)
@@ -540,6 +549,13 @@ class NDArray:
             return
         parent, remap, kind = self.base
         if kind == 'ravel':
+            if parent.ndim >= 2:
+                order = getattr(parent, 'order', 'C')
+                if order is None:
+                    from .stdlib import choice
+                    order = 'C' if choice('array_is_c_contiguous') else 'F'
+                if order != 'C':
+                    return              # ravel() of a non C-contiguous array is a copy: the store does not reach the array
             child = self
             pshape = parent.shape
             parent.fn = lambda i: child.fn((ravel_index(i, pshape),))
@@ -1080,8 +1096,14 @@ def transpose(a, axes=None):
         for k, ax in enumerate(axes):
             out[ax] = i[k]
         return tuple(out)
-    return NDArray(shape, lambda i: a.fn(remap(i)), a.dtype,
-                   (lambda i: a.mask_fn(remap(i))) if a.mask_fn is not None else None)
+    r = NDArray(shape, lambda i: a.fn(remap(i)), a.dtype,
+                (lambda i: a.mask_fn(remap(i))) if a.mask_fn is not None else None)
+    if nd >= 2 and axes != tuple(range(nd)):
+        # a transposed view: C-contiguous data becomes non C-contiguous (exactly Fortran order when the axes are reversed)
+        r.order = None if a.order is None else ('F' if a.order == 'C' else ('C' if axes == tuple(reversed(range(nd))) else None))
+    else:
+        r.order = a.order
+    return r
 
 
 def stack(arrays, axis=0, dtype=None):
@@ -1218,7 +1240,21 @@ def full_like(a, fill_value=None, dtype=None, **kw):
     d = as_dtype(dtype, a.dtype)
     if fill_value is NOMASK:
         fill_value = False if d.kind == 'b' else 0
-    return NDArray(a.shape, lambda i: fill_value, d)
+    r = NDArray(a.shape, lambda i: fill_value, d)
+    r.order = a.order if a.ndim >= 2 else 'C'          # numpy *_like functions keep the layout of the prototype (order='K')
+    return r
+
+
+def zeros_like(a, dtype=None, **kw):
+    a = asarray(a)
+    d = as_dtype(dtype, a.dtype)
+    return full_like(a, False if d.kind == 'b' else (0 if d.kind in 'iu' else 0.0), d)
+
+
+def ones_like(a, dtype=None, **kw):
+    a = asarray(a)
+    d = as_dtype(dtype, a.dtype)
+    return full_like(a, True if d.kind == 'b' else (1 if d.kind in 'iu' else 1.0), d)
 
 
 def arange(*a, dtype=None):
@@ -1298,6 +1334,26 @@ def isfinite(x):
         x = asarray(x).frozen()
         return NDArray(x.shape, lambda i: f_isfinite(x.fn(i)), BOOL)
     return f_isfinite(x)
+
+
+def np_abs(x):
+    """NP-ABS (elementwise)"""
+    used('NP-ABS')
+    from .floats import SFloat as _SF, to_sfloat as _tf
+
+    def one(v):
+        if isinstance(v, _SF):
+            neg = -v
+            return s_ite(mk_bool(core.zreal(v.val) < 0), neg, v) if True else v
+        if isinstance(v, (int, SInt)) and not isinstance(v, bool):
+            return mk_int(z3.If(zint(v) < 0, -zint(v), zint(v)))
+        if isinstance(v, float):
+            return abs(v)
+        raise Unsupported(f'abs({type(v).__name__})')
+    if isinstance(x, NDArray) or hasattr(x, '_asarray'):
+        x = asarray(x).frozen()
+        return NDArray(x.shape, lambda i: one(x.fn(i)), x.dtype, x.mask_fn)
+    return one(x)
 
 
 def isinf(x):
@@ -1589,6 +1645,32 @@ def np_sort(a, axis=-1):
     if not is_sym(a.shape[0]) and a.shape[0] <= 1:
         return a
     raise Unsupported('sort of a general symbolic array')
+
+
+def np_sort_any(a, axis=-1):
+    """numpy.sort: 1-D index arrays (np_sort), or any array along an axis of concrete length 2 (min / max per pair)"""
+    a = asarray(a)
+    if a.ndim == 1:
+        return np_sort(a, axis)
+    ax = axis + a.ndim if axis < 0 else axis
+    n = a.shape[ax]
+    if is_sym(n) or n != 2 or a.mask_fn is not None:
+        raise Unsupported('sort of a multi-dimensional array along an axis that is not of length 2')
+    used('NP-SORT-PAIRS')
+    src = a.frozen()
+
+    def fn(i):
+        lo = tuple(i[:ax]) + (0,) + tuple(i[ax + 1:])
+        hi = tuple(i[:ax]) + (1,) + tuple(i[ax + 1:])
+        x, y = src.fn(lo), src.fn(hi)
+        from .floats import to_sfloat as _tf
+        fx, fy = _tf(x), _tf(y)
+        # NaN sorts last; otherwise ascending
+        swap = s_or(fx.is_nan(), s_and(s_not(fy.is_nan()), fy < fx))
+        first, second = s_ite(swap, fy, fx), s_ite(swap, fx, fy)
+        k = i[ax]
+        return s_ite(mk_bool(zint(k) == 0), first, second) if is_sym(k) else (first if k == 0 else second)
+    return NDArray(src.shape, fn, src.dtype)
 
 
 def np_unique(a):
@@ -1910,7 +1992,13 @@ def ma_masked_array(data, mask=NOMASK, dtype=None, **kw):
 def ma_getmask(a):
     used('NP-MA-GETMASK')
     if isinstance(a, NDArray) and a.mask_fn is not None:
-        return NDArray(a.shape, a.mask_fn, BOOL)
+        m = NDArray(a.shape, a.mask_fn, BOOL)
+        if getattr(a, 'mask_shrinks', False):
+            anym = reduce_bool(m, None, 'any')
+            if not truth(anym):
+                used('NP-MA-SHRINK')
+                return NOMASK       # nothing is masked: the mask was shrunk to the scalar nomask
+        return m
     return NOMASK
 
 
@@ -1933,15 +2021,21 @@ def ma_masked_equal(x, value):
     old = a.mask_fn or (lambda i: False)
     r = NDArray(a.shape, a.fn, a.dtype, lambda i: s_or(old(i), s_eq(a.fn(i), value)))
     r.fill_value = value
+    r.mask_shrinks = True        # NP-MA-SHRINK: masked_equal / masked_where drop an all-False mask (getmask then answers nomask)
     return r
 
 
-def ma_masked_invalid(x):
+def ma_masked_invalid(x, copy=True):
     used('NP-MA-MASKED-INVALID')
     from .floats import f_isfinite
     a = asarray(x)
-    old = a.mask_fn or (lambda i: False)
-    return NDArray(a.shape, a.fn, a.dtype, lambda i: s_or(old(i), s_not(f_isfinite(a.fn(i)))))
+    src = a.frozen()
+    old = src.mask_fn or (lambda i: False)
+    r = NDArray(a.shape, src.fn, a.dtype, lambda i: s_or(old(i), s_not(f_isfinite(src.fn(i)))))
+    if copy is False and isinstance(x, NDArray):
+        # NP-MA-NOCOPY: the masked array shares its data with the argument -- a store into it is a store into the argument
+        r.base = (x, None, 'data')
+    return r
 
 
 def ma_filled(a, fill_value=None):
@@ -2075,6 +2169,9 @@ class NumpyModule:
     full = staticmethod(full)
     zeros = staticmethod(zeros)
     full_like = staticmethod(full_like)
+    zeros_like = staticmethod(zeros_like)
+    ones_like = staticmethod(ones_like)
+    empty_like = staticmethod(zeros_like)
     arange = staticmethod(arange)
     indices = staticmethod(indices)
     prod = staticmethod(np_prod)
@@ -2083,11 +2180,13 @@ class NumpyModule:
     isfinite = staticmethod(isfinite)
     isnan = staticmethod(isnan)
     isinf = staticmethod(isinf)
+    abs = staticmethod(np_abs)
+    absolute = staticmethod(np_abs)
     any = staticmethod(np_any)
     all = staticmethod(np_all)
     sum = staticmethod(np_sum)
     flatnonzero = staticmethod(flatnonzero)
-    sort = staticmethod(np_sort)
+    sort = staticmethod(np_sort_any)
     unique = staticmethod(np_unique)
     pad = staticmethod(pad)
     meshgrid = staticmethod(meshgrid)
